@@ -21,6 +21,16 @@ Replay(st, p, in, calls, k) ==
        IF g.status # "run" THEN [status |-> g.status, k |-> k + 1, drift |-> k + 1 <= Len(calls)]
        ELSE Replay(g.st, p + s.req, in, calls, k + 1)
 
+\* a session of a ReaderSkipDecoder: after every value the hook state (n, len(b), cap(b)) must be what the buffer
+\* model predicts from the machine's request sequence
+RECURSIVE SessionOK(_, _, _, _, _, _)
+SessionOK(in, ts, states, k, p0, buf) ==
+  IF k > Len(ts) THEN TRUE
+  ELSE LET rq == Reqs(in, ts[k], p0)
+           b  == BufAfter(rq, 0, buf.blen, buf.bcap) IN
+       /\ states[k][1] = b.n /\ states[k][2] = b.blen /\ states[k][3] = b.bcap
+       /\ SessionOK(in, ts, states, k + 1, p0 + b.n, b)
+
 TraceInit == l = 1 /\ stack = <<>> /\ pos = 0 /\ status = "ok" /\ nreq = 0
 TraceNext ==
   /\ l <= Len(Trace) /\ l' = l + 1 /\ UNCHANGED smvars
@@ -29,5 +39,8 @@ TraceNext ==
        LET r == Replay(<<Val(ev.t, DefaultDepth)>>, 0, MkIn(ev.in), ev.calls, 1) IN
        /\ r.drift => ReportWhy("DRIFT", l, "request " \o ToString(r.k))
        /\ (~r.drift /\ (ev.ok # (r.status = "ok"))) => ReportWhy("MISMATCH", l, "tpl verdict")
+  /\ LET ev == Trace[l] IN
+     (ev.k = "rdec" /\ ~SessionOK(MkIn(ev.in), ev.ts, ev.states, 1, 0, [blen |-> ev.init[1], bcap |-> ev.init[2]]))
+        => ReportWhy("DRIFT", l, "readerdec buffer")
 TraceSpec == TraceInit /\ [][TraceNext]_tvars
 =============================================================================
